@@ -712,13 +712,14 @@ class C05(Profile):
                 out1 = type(out1)(True, keep)
         # I5: the same call again gives the same outcome
         if not TABLE[op["f"]]["path"].startswith("io:"):
-            out2 = capture(self._exec, world, op, [])
-            st["repeat_checks"] += 1
-            why = outcomes_agree(out2, out1, 1e-12)
-            if why:
-                return out1, dict(base, invariant="I5:repeatable", cls=None, victim=op["f"], victim_kind="result",
-                                  what="%s returned a different result when called again with the same arguments: %s"
-                                       % (op["f"], why), first=out1.brief(), second=out2.brief()), None
+            for rep in range(int(op.get("reps", 1))):      # usually once more; sometimes several times in a row
+                out2 = capture(self._exec, world, op, [])
+                st["repeat_checks"] += 1
+                why = outcomes_agree(out2, out1, 1e-12)
+                if why:
+                    return out1, dict(base, invariant="I5:repeatable", cls=None, victim=op["f"], victim_kind="result",
+                                      what="%s returned a different result when called again (call %d) with the same arguments: %s"
+                                           % (op["f"], rep + 2, why), first=out1.brief(), second=out2.brief()), None
         # I5 across the history: the same call on the same inputs (same buffers bit for bit, same object values,
         # dt and settings) issued again later -- typically after reads that filled caches -- gives the same outcome
         key = self._call_key(world, op)
@@ -1399,7 +1400,24 @@ class Gen(object):
             return None
         args, kwargs = spec
         self.last_call = {"op": "call", "f": name, "args": args, "kwargs": kwargs}
-        return dict(self.last_call)
+        op = dict(self.last_call)
+        if rng.random() < 0.1:
+            op["reps"] = rng.choice([2, 3, 4])
+        if self.cfg.get("faults_on") and rng.random() < self.cfg.get("k1_rate", 0.0) * 0.5:
+            # K1: one scalar argument of the wrong type or out of range -- the call is rejected somewhere inside
+            slots = [("a", i) for i, a in enumerate(args) if isinstance(a, (int, float, str, bool)) and not isinstance(a, dict)] + \
+                    [("k", k) for k, v in kwargs.items() if isinstance(v, (int, float, str, bool))]
+            if slots:
+                where, key = rng.choice(slots)
+                bad = rng.choice([None, "x", -1, 0, float("nan")])
+                op["args"] = list(args)
+                op["kwargs"] = dict(kwargs)
+                if where == "a":
+                    op["args"][key] = bad
+                else:
+                    op["kwargs"][key] = bad
+                op["k1"] = True
+        return op
 
     def g_sibling(self, world):
         """The previous call with one secondary array argument replaced by a sibling: same length, same first and last
